@@ -53,6 +53,11 @@ IsProb(th) == \A b \in 1..Len(th) :
 WinSets(alpha) == [b \in 1..Len(alpha) |-> ArgMaxSet(alpha[b])]
 AsisWin(alpha) == [b \in 1..Len(alpha) |-> FirstArgMax(alpha[b])]
 NoTie(alpha)   == \A b \in 1..Len(alpha) : Cardinality(ArgMaxSet(alpha[b])) = 1
+\* every tie at the logged resolution is a bit-exact tie of the float parameters (logged by the harness at export)
+ExactTies(alpha, e) ==
+    /\ "exactmax" \in DOMAIN e
+    /\ Len(e.exactmax) = Len(alpha)
+    /\ \A b \in 1..Len(alpha) : ArgMaxSet(alpha[b]) = {e.exactmax[b][j] : j \in 1..Len(e.exactmax[b])}
 
 ----------------------------------------------------------------------------
 \* verdict of one event: ok / violated property clause / signature of a listed finding
@@ -92,6 +97,11 @@ ExportVerdict(net, st, e, i) ==
     \* branch is accepted above and output equality is only required without such a tie
     ELSE IF NoTie(st.alpha) /\ ~e.out_equal_hard
         THEN Viol(at \o "OutEqualHard: output differs from the SuperNet under hard selection, winners " \o ToString(aw))
+    \* an EXACT tie (the tied floats are bit-equal: the logged arg-max set is the bit-exact one) is not ambiguous:
+    \* "the branch with the largest coefficient" that export keeps must be the one the hard selection evaluates
+    ELSE IF ExactTies(st.alpha, e) /\ ~e.out_equal_hard
+        THEN Viol(at \o "OutEqualHard: output differs from the SuperNet under hard selection although the coefficients"
+                  \o " tie exactly (arg-max sets " \o ToString(e.exactmax) \o ")")
     ELSE OK
 
 \* the export succeeded but kept another branch in exactly the way finding F03 does (reported under C03;
